@@ -8,6 +8,7 @@ import (
 	"time"
 
 	"github.com/IrineSistiana/mosdns/v5/pkg/upstream"
+	"github.com/IrineSistiana/mosdns/v5/pkg/upstream/transport"
 	"verif/sim/simnet"
 	"verif/sim/simrt"
 )
@@ -58,6 +59,7 @@ type c07cfg struct {
 	dialsAtClose int
 	postCall *Call
 	mainEnd  time.Duration
+	exhaust  bool // family: >= 100 unanswered queries on consecutive wire IDs, allocator put back on that block
 }
 
 func c07Setup(rc *RunCtx) simrt.Config {
@@ -100,6 +102,12 @@ func c07Setup(rc *RunCtx) simrt.Config {
 		c.maxCQ = pick(0, 0, 1, 2)
 	}
 	c.idle = []time.Duration{0, 0, 50 * time.Millisecond, 3 * time.Second}[r.Choose(4)]
+	if r.Choose(40) == 0 {
+		c.exhaust = true
+		c.kind = []TransportKind{TkPipelineStream, TkPipelineDgram}[r.Choose(2)]
+		c.mute, c.closeAt = false, 0
+	}
+	rc.Cfg["id_exhaustion"] = c.exhaust
 	rc.Net.ChunkMode = r.Choose(3)
 	rc.Cfg["strategy"] = sname
 	rc.Cfg["kind"] = c.kind.String()
@@ -119,6 +127,10 @@ func c07Main(rc *RunCtx) {
 	c := rc.priv.(*c07cfg)
 	w := newW1(rc)
 	c.w = w
+	if c.exhaust {
+		c07Exhaust(rc, c, w)
+		return
+	}
 	plan := func(sc *simnet.Conn, nth int, call *Call, wid uint16) Action {
 		a := Action{}
 		if c.mute {
@@ -212,6 +224,87 @@ func c07Main(rc *RunCtx) {
 	}
 	doClose()
 	// a call after Close must fail at once and must not dial
+	pc := w.NewCall(99, 0, 1, 1)
+	c.postCall = pc
+	w.Exchange(u, pc)
+	c.mainEnd = simrt.S.Elapsed()
+}
+
+// c07Exhaust: one pipelined connection (limit above 100) carries >= 100
+// unanswered queries on consecutive wire IDs; the allocator is put back on that
+// block (the state after ~65k further queries), so the next queries find no free
+// ID among their 100 candidates and are refused. Everything must still
+// terminate: the refused calls, the held calls once they are answered, later
+// calls, and Close.
+func c07Exhaust(rc *RunCtx, c *c07cfg, w *W1) {
+	stream := c.kind == TkPipelineStream
+	network := "udp"
+	if stream {
+		network = "tcp"
+	}
+	hold := make(chan struct{})
+	plan := func(sc *simnet.Conn, nth int, call *Call, wid uint16) Action {
+		if call != nil && call.Caller >= 100 && call.Caller < 1000 {
+			return Action{HoldUntil: hold}
+		}
+		return Action{}
+	}
+	rc.Net.Handle(network, srvAddr, w.Serve(ServerOpts{Plan: plan}))
+	L := 101 + simrt.Choose(30)
+	var dcs []*transport.TraditionalDnsConn
+	start := []uint16{0, 0xFFC0, uint16(simrt.Choose(65536))}[simrt.Choose(3)]
+	u := transport.NewPipelineTransport(transport.PipelineOpts{
+		DialContext: func(ctx context.Context) (transport.DnsConn, error) {
+			nc, err := rc.Net.Dial(ctx, network, srvAddr)
+			if err != nil {
+				return nil, err
+			}
+			dc := transport.NewDnsConn(transport.TraditionalDnsConnOpts{WithLengthHeader: stream, MaxConcurrentQuery: L}, nc)
+			dc.VerifSetNextQid(start)
+			dcs = append(dcs, dc)
+			return dc, nil
+		},
+	})
+	// warm up: the connection exists
+	w.Exchange(u, w.NewCall(0, 0, 1, 1))
+	n := 100 + simrt.Choose(L-100)
+	done := make(chan struct{}, 256)
+	for i := 0; i < n; i++ {
+		call := w.NewCall(100+i, 0, uint16(i), 1)
+		ctx, cancel := context.WithTimeout(context.Background(), 30*time.Second)
+		call.Ctx, call.Cancel, call.Deadline = ctx, cancel, simrt.S.Elapsed()+30*time.Second
+		simrt.GoNamed(fmt.Sprintf("held%d", i), func() {
+			w.Exchange(u, call)
+			cancel()
+			simrt.Send(0, done, struct{}{})
+		})
+	}
+	simrt.Sleep(0, 20*time.Millisecond)
+	if len(dcs) != 1 {
+		rc.Inconcl = fmt.Sprintf("%d connections instead of one", len(dcs))
+	}
+	k := 1 + simrt.Choose(3)
+	for j := 0; j < k && rc.Viol == nil; j++ {
+		for _, dc := range dcs {
+			dc.VerifSetNextQid(start + 1)
+		}
+		simrt.Fault("wire_id_rewind")
+		call := w.NewCall(1000+j, 0, uint16(1000+j), 1)
+		ctx, cancel := context.WithTimeout(context.Background(), 50*time.Millisecond)
+		call.Ctx, call.Cancel, call.Deadline = ctx, cancel, simrt.S.Elapsed()+50*time.Millisecond
+		w.Exchange(u, call)
+		cancel()
+	}
+	close(hold)
+	for i := 0; i < n; i++ {
+		simrt.Recv(0, done)
+	}
+	w.Exchange(u, w.NewCall(2000, 0, 2, 1)) // a later call on the same transport
+	u.Close()
+	c.closed, w.Closed = true, true
+	c.closeRet = simrt.S.Elapsed()
+	c.dialsAtClose = len(rc.Net.Conns())
+	simrt.Fault("transport_close")
 	pc := w.NewCall(99, 0, 1, 1)
 	c.postCall = pc
 	w.Exchange(u, pc)
